@@ -1088,8 +1088,10 @@ def rule_dirty_bits_independent(ctx):
 
         def bit_of(c):
             for x in walk(c, True):
-                if x[0] == "bin" and x[1] == "&" and kind(strip(x[2])) == "mem" and strip(x[2])[2] == "dirty" and int_name(x[3]):
-                    return int_name(x[3])
+                if x[0] == "bin" and x[1] == "&":
+                    for a_, b_ in ((x[2], x[3]), (x[3], x[2])):
+                        if kind(strip(a_)) == "mem" and strip(a_)[2] == "dirty" and int_name(b_):
+                            return int_name(b_)
             return None
 
         def vis(nd, st):
